@@ -485,7 +485,7 @@ func (nz *Normalizer) bodyInlinable(c *nfCallee) bool {
 	ok := true
 	ast.Inspect(c.decl.Body, func(n ast.Node) bool {
 		switch x := n.(type) {
-		case *ast.DeferStmt, *ast.LabeledStmt:
+		case *ast.DeferStmt:
 			ok = false
 		case *ast.BranchStmt:
 			if x.Tok == token.GOTO {
@@ -978,7 +978,7 @@ func (nz *Normalizer) siteEdit(fset *token.FileSet, s *nfSite) (textEdit, map[st
 	// ---- guard specialisation (normalize_guard.go) ------------------------------------------------
 	var g *guardInfo
 	needGuard := false
-	if !tail && nres > 0 {
+	if !tail && nres > 0 && nfGuards {
 		g = nz.detectGuard(fset, s, stmt, parent, src)
 	}
 
@@ -1068,6 +1068,26 @@ func (nz *Normalizer) siteEdit(fset *token.FileSet, s *nfSite) (textEdit, map[st
 			}
 		}
 		bedits = append(bedits, textEdit{start: off(r.Pos()), end: off(r.End()), text: rep})
+	}
+	// labels of the callee are renamed per site (labels are function-scoped)
+	{
+		var lwalk func(n ast.Node)
+		lwalk = func(n ast.Node) {
+			ast.Inspect(n, func(x ast.Node) bool {
+				switch l := x.(type) {
+				case *ast.FuncLit:
+					return false
+				case *ast.LabeledStmt:
+					bedits = append(bedits, textEdit{start: off(l.Label.Pos()), end: off(l.Label.End()), text: l.Label.Name + "_" + id})
+				case *ast.BranchStmt:
+					if l.Label != nil {
+						bedits = append(bedits, textEdit{start: off(l.Label.Pos()), end: off(l.Label.End()), text: l.Label.Name + "_" + id})
+					}
+				}
+				return true
+			})
+		}
+		lwalk(c.decl.Body)
 	}
 	sort.Slice(bedits, func(a, b int) bool { return bedits[a].start > bedits[b].start })
 	btxt := append([]byte(nil), csrc[bstart:bend]...)
@@ -1265,6 +1285,11 @@ func collectPinned(P *Program) map[string]bool {
 	rolesCache, hmodelCache = nil, nil
 	R := GetRoles(P)
 	walk(reflect.ValueOf(R), 0)
+	for fn := range serverDenyFns(P) {
+		if fn.Parent() == nil {
+			add(fn)
+		}
+	}
 	func() {
 		defer func() { _ = recover() }()
 		walk(reflect.ValueOf(getHModel(P)), 0)
@@ -1279,6 +1304,9 @@ func normalFormDebug(P *Program, pinned map[string]bool, k int) (*Program, []str
 }
 
 var debugOverlayDir string
+
+// nfGuards: whether the inliner specialises the caller's guard at the helper's return sites
+var nfGuards = true
 
 // keepAliveRef renders a package-level blank declaration that references the imported package.
 func keepAliveRef(pn *types.PkgName) string {
